@@ -1266,17 +1266,19 @@ def thio_specs():
 # =========================================================================== cassis
 
 def _promoters_once(data):
-    """ normaliser: promoter features that are exact copies of one another count once """
+    """ normaliser: promoter features that are exact copies of one another count once; the features are then put
+        in a canonical order, because the record's ordering of features that start together (promoter, gene,
+        subregion, CDS) depends on how many of them there are (C10's subject), so the copies also move others """
     if isinstance(data, dict) and isinstance(data.get("features"), list):
         seen, kept = set(), []
         for feature in data["features"]:
+            key = repr(sorted(feature.items(), key=repr))
             if feature.get("type") == "promoter":
-                key = repr(sorted(feature.items(), key=repr))
                 if key in seen:
                     continue
                 seen.add(key)
-            kept.append(feature)
-        return dict(data, features=kept)
+            kept.append((key, feature))
+        return dict(data, features=[feature for _, feature in sorted(kept, key=lambda pair: pair[0])])
     return data
 
 
@@ -1398,6 +1400,291 @@ def cassis_specs(draw) -> dict:
             "steps": steps}
 
 
+# =========================================================================== nrps_pks (substrate specificities)
+
+NP_SUBSTRATES = ["Gly", "Ala", "Ser", "Val", "Orn", "Phe"]
+NP_MINOWA_AT = ["Malonyl-CoA", "Methylmalonyl-CoA", "Ethylmalonyl-CoA", "Methoxymalonyl-CoA", "inactive"]
+NP_MINOWA_CAL = ["Acetyl-CoA", "AHBA", "fatty_acid", "NH2", "shikimic_acid"]
+NP_AT_SHORT = ["mal", "mmal", "emal", "mxmal"]
+
+
+class NrpsPksKit(Kit):
+    name = "nrps_pks"
+    normalisers = (("empty_predictions", lambda data: _without_empty_predictions(data)),
+                   ("aa_signatures_swapped", lambda data: _swap_back(data)))
+
+    def module(self):
+        from antismash.modules import nrps_pks
+        return nrps_pks
+
+    def cls(self):
+        from antismash.modules.nrps_pks.results import NRPS_PKS_Results
+        return NRPS_PKS_Results
+
+    def options(self, spec, env):
+        return _b()._options(["--enable-nrps-pks"])
+
+    def record(self, spec, rid, variant=None):
+        """ a record that already went through hmm_detection (protoclusters) and nrps_pks_domains """
+        base = _b()
+        layout, length = base._nrps_layout(spec["genes"])
+        record = make_record(length, False, record_id=rid)
+        for gene, (start, end, protein) in zip(spec["genes"], layout):
+            record.add_cds_feature(make_cds({"parts": [[start, end]], "strand": gene["strand"]}, gene["name"],
+                                            translation=("M" + "ACDEFGHIKLMNPQRSTVWY" * (protein // 20 + 1))[:protein]))
+        cut = spec.get("region_cut")
+        bounds = [(0, length)]
+        if cut:
+            middle = layout[cut - 1][1] + 10
+            bounds = [(0, middle), (middle + 10, length)]
+        clusters = []
+        for index, (start, end) in enumerate(bounds):
+            product, category = spec["products"][index % len(spec["products"])]
+            clusters.append({"core": [start + 2, end - 2], "surround": [start, end], "product": product,
+                             "category": category})
+        add_areas(record, clusters)
+        base._nrps_generate(spec, record).add_to_record(record)
+        return record
+
+    def original(self, spec, record, options):
+        import importlib
+        specific_analysis = importlib.import_module("antismash.modules.nrps_pks.specific_analysis")
+        orderfinder = importlib.import_module("antismash.modules.nrps_pks.orderfinder")
+        substrates_pks = importlib.import_module("antismash.modules.nrps_pks.substrates_pks")
+        from antismash.modules.nrps_pks.at_analysis.at_analysis import ATPrediction, ATResult
+        from antismash.modules.nrps_pks.c_analysis import c_analysis
+        from antismash.modules.nrps_pks.data_structures import SimplePrediction
+        from antismash.modules.nrps_pks.minowa.base import MinowaPrediction
+        from antismash.modules.nrps_pks.name_mappings import get_substrate_by_name
+        from antismash.modules.nrps_pks.nrpys import PredictorSVMResult, StachelhausMatch, SvmPrediction
+        seed = spec["np"]["seed"]
+
+        def pick(options_list, index, shift=0):
+            return options_list[(seed + 3 * index + shift) % len(options_list)]
+
+        def fake_nrpys(a_domains, _options):
+            found = {}
+            for index, domain in enumerate(a_domains):
+                if (index + seed) % 5 == 0:
+                    continue            # no signature could be extracted
+                first = get_substrate_by_name(pick(NP_SUBSTRATES, index))
+                second = get_substrate_by_name(pick(NP_SUBSTRATES, index, 1))
+                aa10 = ("DAWTIAAVCK" if index % 2 else "DILQLGLIWK")
+                aa34 = ("L" + "-" * (11 if (index + seed) % 4 == 0 else 2) + "SFDASLFEMYLLTGGDRNMYGPTEATMCATW")[:34]
+                quality = [1.0, 0.9, 0.7, 0.5][(seed + index) % 4]
+                matches = [StachelhausMatch([first], aa10, quality, 0.88)]
+                if (seed + index) % 3 == 0:
+                    matches.append(StachelhausMatch([first, second], aa10[::-1], quality, 0.5))
+                svm = [SvmPrediction(name, 0.5 + 0.1 * level, [first] if level else [first, second])
+                       for level, name in enumerate(["hydrophobic-aliphatic", "Gly,Ala", "Gly", first.short])]
+                if (seed + index) % 6 == 1:
+                    svm[3] = SvmPrediction("N/A", 0.0, [])
+                found[domain.get_name()] = PredictorSVMResult(aa34, aa10, matches, *svm)
+            return found
+
+        def fake_c(c_domains):
+            activities, sites = {}, {}
+            for index, (name, c_type, _seq) in enumerate(c_domains):
+                if (index + seed) % 4 == 0:
+                    activities[name] = SimplePrediction("c_activity", "unknown")
+                    continue
+                signature = pick(["SHAQYDG", "MHHILFD", "DHAIVDG"], index)
+                sites[name] = SimplePrediction("c_activesite", signature)
+                activities[name] = SimplePrediction("c_activity", c_analysis.is_active(signature, c_type))
+            return {"c_activity": activities, "c_activesite": sites}
+
+        def fake_signature(at_domains):
+            found = {}
+            for index, name in enumerate(at_domains):
+                results = {}
+                for rank in range((seed + index) % 3):
+                    monomer = pick(NP_AT_SHORT, index, rank)
+                    results[monomer] = ATResult(monomer, "QQGHSQGRSHT", 95.5 - 10 * rank * ((seed + index) % 2))
+                found[name] = ATPrediction(results)
+            return found
+
+        def fake_minowa(names):
+            def run(sequence_info):
+                return {name: MinowaPrediction([(pick(names, index, rank), 120.5 - 30 * rank) for rank in range(3)])
+                        for index, name in enumerate(sequence_info)}
+            return run
+
+        def fake_terminus(count):
+            def run(_data_dir, cds_features, skipped):
+                return {cds.get_name(): pick(["AB", "KE", "RD", "EK"], index)[:count]
+                        for index, cds in enumerate(cds_features) if cds is not skipped}
+            return run
+        with contextlib.ExitStack() as stack:
+            stack.enter_context(mock.patch.object(specific_analysis, "run_nrpys", fake_nrpys))
+            stack.enter_context(mock.patch.object(c_analysis, "run_c_analysis", fake_c))
+            stack.enter_context(mock.patch.object(substrates_pks.at_analysis, "run_at_domain_analysis", fake_signature))
+            stack.enter_context(mock.patch.object(substrates_pks.minowa_at, "run_minowa_at", fake_minowa(NP_MINOWA_AT)))
+            stack.enter_context(mock.patch.object(substrates_pks.minowa_cal, "run_minowa_cal",
+                                                  fake_minowa(NP_MINOWA_CAL)))
+            stack.enter_context(mock.patch.object(orderfinder, "extract_nterminus", fake_terminus(2)))
+            stack.enter_context(mock.patch.object(orderfinder, "extract_cterminus", fake_terminus(2)))
+            return self.module().run_on_record(record, None, options)
+
+    def rerun_blocked(self):
+        return block((self.module(), "specific_analysis"))
+
+    def describe(self, spec, original):
+        methods = {method for found in original.domain_predictions.values() for method in found}
+        labels = sorted(f"method_{method}" for method in methods)
+        regions = [pred for found in original.region_predictions.values() for pred in found]
+        labels.append(f"candidate_predictions_{min(len(regions), 3)}")
+        if any(pred.domain_docking_used for pred in regions):
+            labels.append("docking_order")
+        if any(pred.smiles for pred in regions):
+            labels.append("smiles")
+        if original.consensus:
+            labels.append("consensus")
+        return bool(original.domain_predictions), labels
+
+
+def _without_empty_predictions(data):
+    """ normaliser: domains without any prediction, listed only because they were looked up in a defaultdict """
+    if isinstance(data, dict) and isinstance(data.get("domain_predictions"), dict):
+        return dict(data, domain_predictions={name: found for name, found in data["domain_predictions"].items()
+                                              if found})
+    return data
+
+
+def _swap_back(data):
+    """ normaliser: aa10 and aa34 of an nrpys prediction exchanged """
+    if isinstance(data, dict):
+        if "aa10" in data and "aa34" in data and len(str(data["aa10"])) > len(str(data["aa34"])):
+            data = dict(data, aa10=data["aa34"], aa34=data["aa10"])
+        return {key: _swap_back(value) for key, value in data.items()}
+    if isinstance(data, list):
+        return [_swap_back(item) for item in data]
+    return data
+
+
+def check_nrps_pks(spec: dict) -> dict:
+    return drive(spec, NrpsPksKit())
+
+
+@st.composite
+def nrps_pks_specs(draw) -> dict:
+    spec = draw(_b().nrps_specs())
+    spec.pop("steps")
+    spec["products"] = draw(st.lists(st.sampled_from([["NRPS", "NRPS"], ["T1PKS", "PKS"], ["transAT-PKS", "PKS"],
+                                                      ["NRPS-like", "NRPS"]]), min_size=1, max_size=2))
+    spec["np"] = {"seed": draw(st.integers(0, 59))}
+    spec["steps"] = draw(history(LEVELS, std_changes([2, 4, 0, "3", "missing", None])))
+    return spec
+
+
+# =========================================================================== genefunctions
+
+GF_RESFAM = ["RF0007", "RF0053", "RF0168"]
+
+
+def genefunction_ids() -> dict:
+    """ identifiers of the shipped smCOG profiles and 'extras' entries (read once, for the strategies) """
+    from antismash.detection.genefunctions.tools import extras, smcogs
+    return {"smcogs": sorted(smcogs._load_profiles())[:40], "extras": sorted(extras._load_metadata())[:40]}
+
+
+class GeneFunctionsKit(Kit):
+    name = "genefunctions"
+
+    def module(self):
+        from antismash.detection import genefunctions
+        return genefunctions
+
+    def cls(self):
+        return self.module().AllFunctionResults
+
+    def options(self, spec, env):
+        return _b()._options(["--enable-genefunctions"])
+
+    def record(self, spec, rid, variant=None):
+        record = make_record(spec["L"], False, record_id=rid)
+        add_genes(record, spec["genes"])
+        add_areas(record, subregions=spec["subregions"])
+        return record
+
+    def original(self, spec, record, options):
+        from antismash.common.secmet.qualifiers.gene_functions import ECGroup, GeneFunction
+        from antismash.detection.genefunctions.tools import core, extras, halogenases, mite, resistance, smcogs
+
+        def scan_for(tool: str):
+            def scan(cds_features, _database, hmmscan_opts=None):
+                wanted = {cds.get_name() for cds in cds_features}
+                found = {}
+                for name, hit in spec["hits"].get(tool, {}).items():
+                    if name in wanted:
+                        reference = hit["ref"] + (": generated description" if tool == "smcogs" else "")
+                        found[name] = core.HMMHit(query_id=name, reference_id=reference, bitscore=hit["sc"],
+                                                  evalue=hit["ev"], query_start=hit["s"], query_end=hit["e"])
+                return found
+            return scan
+        entries = {accession: types.SimpleNamespace(subfunctions=["Methylation", "Oxidation"][:1 + index % 2],
+                                                    function=[GeneFunction.ADDITIONAL, GeneFunction.TRANSPORT][index % 2],
+                                                    groups=[ECGroup.TRANSFERASES] if index % 2 else [])
+                   for index, accession in enumerate(["MITE0000001", "MITE0000022", "MITE0000333"])}
+        dataset = types.SimpleNamespace(entries=entries, version="1.3", url="https://mite.example/@accession@")
+
+        def blast(cds_features, _dataset):
+            wanted = {cds.get_name() for cds in cds_features}
+            return [types.SimpleNamespace(query_id=name, reference_id=hit["ref"], identity=hit["id"],
+                                          bitscore=hit["sc"], evalue=hit["ev"])
+                    for name, found in spec["hits"].get("mite", {}).items() if name in wanted for hit in found]
+        with contextlib.ExitStack() as stack:
+            for tool, owner in (("smcogs", smcogs), ("extras", extras), ("resist", resistance)):
+                stack.enter_context(mock.patch.object(owner, "scan_profiles_for_functions", scan_for(tool)))
+            stack.enter_context(mock.patch.object(mite, "get_dataset", lambda version="latest": dataset))
+            stack.enter_context(mock.patch.object(mite, "_get_blast_hits", blast))
+            stack.enter_context(mock.patch.object(halogenases.TOOL, "classify",
+                                                  lambda features, options: halogenases.HalogenaseResults()))
+            return self.module().run_on_record(record, None, options)
+
+    def rerun_blocked(self):
+        from antismash.detection.genefunctions.tools import extras
+        return block((extras.TOOL, "classify"))
+
+    def describe(self, spec, original):
+        tools = {result.tool: len(result.best_hits) for result in original.tool_results}
+        labels = [f"{tool}_hits_{min(count, 2)}" for tool, count in sorted(tools.items())]
+        total = sum(tools.values())
+        if any(result.group_mapping and any(result.group_mapping.values()) for result in original.tool_results):
+            labels.append("ec_groups")
+        if any(result.subfunction_mapping for result in original.tool_results):
+            labels.append("subfunctions")
+        return total >= 1, labels
+
+
+def check_genefunctions(spec: dict) -> dict:
+    return drive(spec, GeneFunctionsKit())
+
+
+@st.composite
+def genefunctions_specs(draw) -> dict:
+    ids = genefunction_ids()
+    length = draw(st.integers(600, 1800))
+    genes = codon_genes(draw, length, max_genes=6)
+    names = [gene["name"] for gene in genes]
+    hits: dict = {}
+    for tool, pool in (("smcogs", ids["smcogs"]), ("extras", ids["extras"]), ("resist", GF_RESFAM)):
+        found = {}
+        for name in draw(st.lists(st.sampled_from(names), max_size=3, unique=True)):
+            found[name] = {"ref": draw(st.sampled_from(pool)), "sc": draw(st.sampled_from([12.5, 150.0, 801.25])),
+                           "ev": draw(st.sampled_from([1e-80, 3.3e-17, 0.0])), "s": draw(st.integers(0, 5)),
+                           "e": draw(st.integers(6, 9))}
+        hits[tool] = found
+    found = {}
+    for name in draw(st.lists(st.sampled_from(names), max_size=2, unique=True)):
+        found[name] = [{"ref": draw(st.sampled_from(["MITE0000001", "MITE0000022", "MITE0000333"])),
+                        "id": draw(st.sampled_from([35.5, 71.25, 100.0])), "sc": draw(st.sampled_from([55.5, 410.0])),
+                        "ev": draw(st.sampled_from([1e-50, 2e-09]))} for _ in range(draw(st.integers(1, 2)))]
+    hits["mite"] = found
+    subregions = [[0, length]] if draw(st.integers(0, 2)) else [[0, length // 2]]
+    steps = draw(history(LEVELS, std_changes([1, 3, 0, "2", "missing", None])))
+    return {"L": length, "genes": genes, "hits": hits, "subregions": subregions, "rid": "rec1", "steps": steps}
+
+
 # =========================================================================== registration
 
 SUBCHECKS = {
@@ -1412,6 +1699,8 @@ SUBCHECKS = {
     "sacti": check_sacti,
     "thio": check_thio,
     "cassis": check_cassis,
+    "nrps_pks": check_nrps_pks,
+    "genefunctions": check_genefunctions,
 }
 RIPP_SUBS = ("lanthi", "lasso", "sacti", "thio")
 
@@ -1431,7 +1720,7 @@ def _sig_pfam2go_other_record(sub, spec, clause, detail) -> bool:
 def _sig_record_id_unchecked(sub, spec, clause, detail) -> bool:
     """ results of a module that never compares the saved record_id, regenerated for a record with another id """
     change = (detail or {}).get("change") or {}
-    return (sub in ("t2pks", "lasso", "sacti", "thio") and clause == "other_record_reused"
+    return (sub in ("t2pks", "lasso", "sacti", "thio", "nrps_pks") and clause == "other_record_reused"
             and change.get("kind") == "record_id" and (detail or {}).get("saved_for") == spec["rid"])
 
 
@@ -1458,7 +1747,17 @@ def _sig_cassis_promoters_twice(sub, spec, clause, detail) -> bool:
             and (detail or {}).get("level") in ("module", "main"))
 
 
+def _sig_nrps_pks_aa_swapped(sub, spec, clause, detail) -> bool:
+    return sub == "nrps_pks" and clause == "json_aa_signatures_swapped"
+
+
+def _sig_nrps_pks_empty_predictions(sub, spec, clause, detail) -> bool:
+    return sub == "nrps_pks" and clause == "json_empty_predictions" and "domain_predictions" in _path_of(detail)
+
+
 SIGNATURES = {
+    "nrps_pks_aa_swapped": _sig_nrps_pks_aa_swapped,
+    "nrps_pks_empty_predictions": _sig_nrps_pks_empty_predictions,
     "pfam2go_other_record": _sig_pfam2go_other_record,
     "record_id_unchecked": _sig_record_id_unchecked,
     "t2pks_product_classes_order": _sig_t2pks_set_order,
@@ -1478,3 +1777,5 @@ def run(ctx, shards: int) -> None:
     for family in RIPP_SUBS:
         ctx.hyp(family, ripp_specs(family), max_examples=ctx.pick(300, 8000), shards=shards)
     ctx.hyp("cassis", cassis_specs(), max_examples=ctx.pick(400, 10000), shards=shards)
+    ctx.hyp("nrps_pks", nrps_pks_specs(), max_examples=ctx.pick(300, 6000), shards=shards)
+    ctx.hyp("genefunctions", genefunctions_specs(), max_examples=ctx.pick(400, 10000), shards=shards)
